@@ -24,15 +24,16 @@ from ..lib import cz, cb, cl, ce, CN, cbool
 from ..msggen import Cls, Field, Elem, Schema, scalar, NBUILTIN, EPOCH
 
 IMPORTS = ("Model.Types Model.Object Model.Eq Model.Encode Model.Decode Model.History Model.Canon Model.WellFormed "
-           "Model.C07Ops gen.Tables")
-EXTRA_TARGETS = ["Model/Canon.vo", "Model/C07Ops.vo", "Model/WellFormed.vo"]
+           "Model.C07Ops Model.C07Json gen.Tables")
+EXTRA_TARGETS = ["Model/Canon.vo", "Model/C07Ops.vo", "Model/C07Json.vo", "Model/WellFormed.vo"]
 
 TRUSTED = [
     "Coq 8.16.1 kernel and vm_compute (no native_compute); full .vo build via coq_makefile",
     "axioms: none (every theorem of Properties/C07.v is 'Closed under the global context')",
     "hand-written model coq/Model/{Object,Eq,Encode,Decode,History}.v (lead) + coq/Model/C07Ops.v (construct / from_dict at the kwargs level) "
-    "tied to /repo by executable correspondence (this harness): trace7 is evaluated by vm_compute inside Coq on the same histories the real "
-    "objects went through; raw state, which_one_of, every attribute read and bytes(m) are compared after every operation",
+    "tied to /repo by executable correspondence (this harness): trace7j is evaluated by vm_compute inside Coq on the same histories the real "
+    "objects went through; raw state, which_one_of, every attribute read, bytes(m) and the keys of to_dict (both casings, with and without "
+    "include_default_values; coq/Model/Json.v of C04, read-only) are compared after every operation",
     "translator harness/gen_tables.py (type tables reflected into coq/gen/Tables.v)",
     "Python side: harness/msggen.py, histgen.py, wiregen.py (independent record reader/writer), this file's value codec, raw_clone "
     "(copies __dict__ recursively without betterproto's own copy code) and the independent 'member set last' tracker",
@@ -481,6 +482,10 @@ def is_recursive(schema, ci):
     return cache[ci]
 
 
+def incl_ok(schema, ci):
+    return "false" if is_recursive(schema, ci) else "true"
+
+
 def oracle(schema, ci, m, exp, ctx, rng=None):
     """returns [(cls, text)] — the violated clauses of C07 on the real object m, exp = tracked selections"""
     import betterproto as bp
@@ -607,7 +612,15 @@ def expected_snapshot(schema, ci, m, out, op):
         o = cbool(bool(out))
     else:
         o = CN
-    return cl([f"(cv_of_obj {lit})", cl(whichs), cl(reads), bts, o])
+    base = cl([f"(cv_of_obj {lit})", cl(whichs), cl(reads), bts, o])
+
+    def keys(**flags):
+        try:
+            return cl([cb(k.encode("utf-8")) for k in raw_clone(m).to_dict(**flags).keys()])
+        except Exception:
+            return ce("EOther")
+    return cl([base, keys(), keys(casing=bp.Casing.SNAKE),
+               CN if is_recursive(schema, ci) else keys(include_default_values=True)])
 
 
 def run_history(schema, ci, ops, ctx, count=True, rng=None):
@@ -726,7 +739,7 @@ def run(ctx):
         ctx.count(f"history_len:{len(snaps)}")
         ctx.count(f"schema:{kept[si]['kind']}", 1)
         if coq_ops:
-            model = f"CL (trace7 sc{si} (new sc{si} {ci + NBUILTIN}%nat) [{'; '.join(coq_ops)}])"
+            model = f"CL (trace7j {incl_ok(s, ci)} sc{si} (new sc{si} {ci + NBUILTIN}%nat) [{'; '.join(coq_ops)}])"
             pairs.append((model, cl(snaps)))
             meta.append(("hist", si, ci, ops[:len(coq_ops)], (coq_ops, snaps)))
         for step, cls_, text in problems[:3]:
@@ -746,7 +759,7 @@ def run(ctx):
         do_history(si, names.index(h["class"]), h["ops"], "corpus:" + h["name"])
         ctx.count("corpus_histories")
 
-    n_hist = 300 if not ctx.thorough else 6000
+    n_hist = 300 if not ctx.thorough else 4000
     for hidx in range(n_hist):
         r = rng.random()
         si = 0 if r < 0.2 else 1 if r < 0.65 else rng.randrange(len(schemas))
@@ -773,7 +786,7 @@ def run(ctx):
         coq_ops, snaps = extra
         # localise: first differing step and component
         loc_pairs = []
-        tr = f"(trace7 sc{si} (new sc{si} {ci + NBUILTIN}%nat) [{'; '.join(coq_ops)}])"
+        tr = f"(trace7j {incl_ok(schemas[si], ci)} sc{si} (new sc{si} {ci + NBUILTIN}%nat) [{'; '.join(coq_ops)}])"
         for k, sn in enumerate(snaps):
             loc_pairs.append((f"nth {k} {tr} CN", sn))
         where = None
@@ -785,7 +798,7 @@ def run(ctx):
         model_says = ""
         if where is not None:
             model_says = lib.coq_eval(ctx, IMPORTS, f"nth {where} {tr.replace(f'sc{si}', '(' + schemas[si].coq() + ')')} CN")[-3000:]
-        ctx.fail("corr", "model (trace7: raw state / which_one_of / reads / bytes after every op) and implementation disagree",
+        ctx.fail("corr", "model (trace7j: raw state / which_one_of / reads / bytes / to_dict keys after every op) and implementation disagree",
                  input={"schema": kept[si], "class": ci, "class_name": schemas[si].classes[ci].name, "ops": ops,
                         "first_differing_step": where, "op_there": ops[where] if where is not None and where < len(ops) else None,
                         "implementation": snaps[where][:3000] if where is not None else None, "model": model_says})
@@ -822,7 +835,7 @@ def replay(ctx, obj):
     rc = 1 if problems else 0
     if coq_ops:
         prelude = f"Definition sc0 : schema := {s.coq()}."
-        model = f"CL (trace7 sc0 (new sc0 {ci + NBUILTIN}%nat) [{'; '.join(coq_ops)}])"
+        model = f"CL (trace7j {incl_ok(s, ci)} sc0 (new sc0 {ci + NBUILTIN}%nat) [{'; '.join(coq_ops)}])"
         try:
             bad = lib.coq_compare(ctx, "c07replay", IMPORTS, [(model, cl(snaps))], prelude=prelude)
         except RuntimeError as e:
